@@ -1,7 +1,7 @@
 CHECK = dict(
     level='model_checking',
     parts=[dict(name='c17', src=['harness/c17_rand.c'], lib=['rand.c'], workers=16,
-                deadline=dict(quick=240, thorough=900))],
+                deadline=dict(quick=300, thorough=1800))],
     variants=['c17'], variant_unsigned_char=True,
     rule='the generator is a finite state machine with one state word: every state s in 1..2^31-2 is loaded into *seedp, the '
          'real rand31_r (rand.c linked as a separate object, called through <librfn/rand.h> as a user would, its statics reset before every block and every single step) makes one step, and the returned value and the stored seed are compared with the 64-bit '
